@@ -304,6 +304,13 @@ class AtomsStub(PyStub):
         self.view = view
         self.atype = atype
 
+    @property
+    def pos(self):
+        # the live position array of the system (not a copy): writing into it changes the system
+        if 'pos' not in self.view:
+            raise Opaque('atoms.pos of a model without positions')
+        return self.view['pos']
+
 
 class SysStub(PyStub):
     def __init__(self, pbc=(True, True, True), tilt='tri', props=('atype', 'pos'), flags='zero', natoms=None):
@@ -829,9 +836,9 @@ class PoscarSys(PyStub):
         self.natoms = len(atype)
         self.symbols = tuple(symbols)
         self.box = BoxStub('tri')
-        self.atoms = AtomsStub({}, np.array([sp.Integer(a) for a in atype], dtype=object))
         self.P = symarray('p', (len(atype), 3), real=True)
         self.Sc = symarray('s', (len(atype), 3), real=True)
+        self.atoms = AtomsStub({'pos': self.P.copy()}, np.array([sp.Integer(a) for a in atype], dtype=object))
 
     def atoms_prop(self, key=None, value=None, scale=False, **kw):
         self.calls.append(('atoms_prop', key, scale))
@@ -899,6 +906,8 @@ def poscar(ctx):
         text_check(ctx, 'POSCAR', loc, tag, content, tpl, vals, node=fn)
         pc = [c for c in system.calls if c[0] == 'atoms_prop']
         ctx.ob('POSCAR', loc, '%s: positions are read %s' % (tag, 'Cartesian' if cart else 'box-relative'), len(pc) == 1 and pc[0][1] == 'pos' and bool(pc[0][2]) == (not cart), str(pc), node=fn, key=tag + ' mode')
+        ctx.ob('POSCAR', loc, '%s: the system written keeps its positions (the division by the scale factor is made on a copy)' % tag, equal(np.asarray(system.atoms.view['pos'], dtype=object), system.P, deep=False), node=fn,
+               key=tag + ' system kept')
     ctx.floor('POSCAR', n, 4)
     # symbols/natypes mismatch refused
     raises = [s for s in ast.walk(fn) if isinstance(s, ast.Raise)]
